@@ -24,12 +24,15 @@ Require Import V.Lib.RunCases.
 Definition str := list N.                      (* a Go string: its bytes *)
 Definition str_eqb : str -> str -> bool := list_eqb N.eqb.
 
-Inductive ref := RRoot | RObj (i : nat).       (* a *d2graph.Object *)
+(* a *d2graph.Object: the root, g.Objects[i], or an object that is neither (no Parent, not listed
+   anywhere: all the wire can say about it is its ID — d2sequence's lifeline ends are such objects) *)
+Inductive ref := RRoot | RObj (i : nat) | RExt (id : str).
 
 Definition ref_eqb (a b : ref) : bool :=
   match a, b with
   | RRoot, RRoot => true
   | RObj i, RObj j => Nat.eqb i j
+  | RExt a, RExt b => str_eqb a b
   | _, _ => false
   end.
 
@@ -61,7 +64,7 @@ Section Serde.
   Record graph := mkGraph { g_root : object; g_objs : list object; g_edges : list edge; g_level : Z }.
 
   Definition deref (g : graph) (r : ref) : option object :=
-    match r with RRoot => Some (g_root g) | RObj i => nth_error (g_objs g) i end.
+    match r with RRoot => Some (g_root g) | RObj i => nth_error (g_objs g) i | RExt _ => None end.
 
   Definition obj_refs (g : graph) : list ref := map RObj (seq 0 (length (g_objs g))).
   Definition all_refs (g : graph) : list ref := RRoot :: obj_refs g.
@@ -92,7 +95,11 @@ Section Serde.
         end
       end
     end.
-  Definition absid (g : graph) (r : ref) : option str := absid_fuel g (fuel_of g) r.
+  Definition absid (g : graph) (r : ref) : option str :=
+    match r with
+    | RExt id => Some id                      (* no Parent: AbsID() is the ID *)
+    | _ => absid_fuel g (fuel_of g) r
+    end.
 
   (* ---------------------------------------------------------------- the wire *)
   (* SerializedObject / SerializedEdge are map[string]interface{}: the JSON of the struct plus the
